@@ -171,6 +171,7 @@ func (fe *FuncEnc) instr(ins ssa.Instruction, st *State) {
 		}
 		r := fe.newRef(st, x.Comment)
 		fe.vals[x] = r
+		fe.assume(st, fe.typeFacts(st, r, x.Type()))
 		fe.initZero(st, r, et)
 		fe.initGhost(st, r, et)
 	case *ssa.FieldAddr:
